@@ -1,22 +1,34 @@
 #!/usr/bin/env python3
-"""Translator for the pointer code of the AVL rotations of Map.hpp / MultiMap.hpp (property C01).
+"""Translator for the pointer code of Map.hpp / MultiMap.hpp (property C01).
 
-Extracts the bodies of `Item::updateHeightAndSlope`, `rotr`, `rotl`, `shiftr`, `shiftl` and `rebal` from the CURRENT
-headers (tokenizer + recursive-descent parser for the C++ subset these functions are written in), type-checks them
-against the field declarations of `struct Item` (also read from the header) and writes them as Lean functions over the
-record-of-nodes heap of lean/Nstd/Avl/Heap.lean into lean/Nstd/Generated/AvlRot.lean.  Props.lean proves that the
-generated functions are the model's `upd/rotr/rotl/shiftr/shiftl/rebal` on the abstraction (`Repr`).
+From the CURRENT headers (tokenizer + recursive-descent parser for the C++ subset these functions are written in, field
+types read from `struct Item`) into Lean functions over the record-of-nodes heap of lean/Nstd/Avl/Heap.lean
+(lean/Nstd/Generated/AvlRot.lean, namespaces Map / Multi):
+  * `Item::updateHeightAndSlope`, `rotr`, `rotl`, `shiftr`, `shiftl`, `rebal`                       (PropsRot.lean: gen_*_eq_model)
+  * `find`, MultiMap `count`, `clear` (loops become functions recursive in a fuel argument; key comparisons are counted)
+  * private `insert(cell, parent, key, value)`: descent (`insertDescend`; goto shape and for shape), the linking part
+    (`insertLeaf`: `Item* item = freeItem`, the block allocation recognised as a unit -> `Heap.allocBlock N`, `new(item) Item(..)`
+    as the stores of the constructor's initialiser list, `*cell = item`, `++_size`, first-item case, and — outlined, i.e. replaced
+    by calls of the fragments cut from the same text — `insertThread` and `insertRebalance`), composed: `insertPrivate`
+  * public `insert(key, value)` (`insertPlain`) and `insert(position, key, value)` (`insertHint` + `insertAt`)
+  * `remove(const Iterator&)`: one function `remove` (labels as continuations), its pieces `removeHead`, `removeRebal`
+    (the `rebalParent:` do-while), `removeUpwards` (the `rebalParentUpwards:` while), `removeTail`
+PropsRot / PropsComp / PropsComp2 / PropsComp3 prove that the generated functions are the model's functions on the
+abstraction (`Repr`, `DList`, `FreeRepr`, `ReprSt`).
 
 Anything outside the understood subset is REFUSED (exception -> the check reports a broken tie): unknown statements,
-unknown fields or members, loops, pointer arithmetic, address-of, calls to other functions, assignments inside
-expressions other than `if((lvalue = pointer))`, type mismatches (e.g. an `ssize` value stored into a `usize`).
+unknown fields or members, nested loops, pointer arithmetic outside the allocation idiom, calls to other functions,
+assignments inside expressions other than `if((lvalue = pointer))`, `(a = b)->f = c`, `a = b = c`, type mismatches.
 
 Semantics of the translation (the assumptions are listed in the MANIFEST note):
   Item*            -> Nat, 0 = null, the item with id i is pointer i+1
-  Item*& / lvalue  -> Heap.Cell (root | left p | right p)
-  usize            -> Nat (no overflow: heights are < 2^63)
+  Item*& / Item**  -> Heap.Cell (root | left p | right p)
+  usize            -> Nat (no overflow: heights are < 2^63); `--_size` is truncated subtraction (never at 0: an item exists)
   ssize            -> Int; `usize - usize` stored into an ssize is the mathematical difference (exact while |difference| < 2^63)
   ASSERT(e)        -> skipped (must be free of assignments / increments)
+  p->~Item()       -> skipped (destroys key and value; links and stored fields stay)
+  block allocation -> never fails; the block allocated as the b-th holds the pointers N*b+1 .. N*b+N (Heap.nblocks)
+  (a = b)->f = c   -> c, then a = b, then the store (C++17 order; the other order gives the same in the one place it is used)
 """
 import re
 import sys
@@ -1758,7 +1770,9 @@ def generate(repo, out_path):
     out_path.parent.mkdir(parents=True, exist_ok=True)
     if not out_path.exists() or out_path.read_text() != text:
         out_path.write_text(text)
-    return f"{nfun} functions translated (rotations x 2 headers: {len(same)} of {len(FUNCS)} token-identical; find, count, upward loop of insert)"
+    return (f"{nfun} functions translated (rotations x 2 headers: {len(same)} of {len(FUNCS)} token-identical; find, count, clear; private insert: "
+            "descent, linking part incl. allocation idiom / constructor / first item, threading, upward loop, composed to insertPrivate / "
+            "insertPlain / insertAt; remove(it): head, rebalParent loop, rebalParentUpwards loop, tail, composed to remove)")
 
 
 if __name__ == "__main__":
